@@ -184,7 +184,18 @@ func (s *Set[T]) unsafeIterator() *fun.Iterator[T] {
 	if s.list != nil {
 		return s.list.Iterator()
 	}
-	return s.hash.Keys()
+	return fun.SliceIterator(s.unsafeKeys())
+}
+
+// unsafeKeys copies the members of an unordered set. Callers must
+// hold the lock: ranging over the map from another goroutine (as the
+// map's own iterators do) is not covered by the set's mutex.
+func (s *Set[T]) unsafeKeys() []T {
+	keys := make([]T, 0, len(s.hash))
+	for k := range s.hash {
+		keys = append(keys, k)
+	}
+	return keys
 }
 
 // Producer will produce each item from set on successive calls. If
@@ -199,7 +210,7 @@ func (s *Set[T]) Producer() (out fun.Producer[T]) {
 		return s.list.Producer()
 	}
 
-	return s.hash.ProducerKeys()
+	return fun.SliceIterator(s.unsafeKeys()).Producer()
 }
 
 // Equal tests two sets, returning true if the items in the sets have
